@@ -478,7 +478,7 @@ static int ref_ext_val_ok(const ref_u8 *p, size_t b, size_t e)
 	size_t i;
 	if (b == e)
 		return 0;
-	for (i = b; i < e; i++)
+	for (i = b; i < REF_MAXLINE && i < e; i++)
 		if (p[i] < 0x20 && p[i] != '\t')
 			return 0;
 	return 1;
@@ -486,11 +486,11 @@ static int ref_ext_val_ok(const ref_u8 *p, size_t b, size_t e)
 static int ref_chunk_size_line(const ref_u8 *p, size_t n, unsigned long long *size, int *has_ext)
 {
 	unsigned long long v = 0;
-	size_t i = 0;
+	size_t i = 0, k, x;
 	int over = 0;
 	*has_ext = 0;
 	*size = 0;
-	while (i < n && ref_is_hexdig(p[i])) {
+	for (k = 0; k < REF_MAXLINE && i < n && ref_is_hexdig(p[i]); k++) {
 		unsigned d = ref_is_digit(p[i]) ? (unsigned)(p[i] - '0') : (unsigned)(ref_lower(p[i]) - 'a' + 10);
 		if (v > 0x7fffffffffffffffULL / 16 || (v == 0x7fffffffffffffffULL / 16 && d > 0x7fffffffffffffffULL % 16))
 			over = 1;
@@ -500,39 +500,40 @@ static int ref_chunk_size_line(const ref_u8 *p, size_t n, unsigned long long *si
 	}
 	if (i == 0)
 		return 0;
-	/* zero or more extensions */
-	while (i < n) {
-		size_t nb, ne;
-		while (i < n && ref_is_ows(p[i])) i++; /* BWS */
+	/* zero or more extensions: each needs at least ";" + one name octet */
+	for (x = 0; x < REF_MAXLINE / 2 + 1 && i < n; x++) {
+		size_t nb, ne, save;
+		for (k = 0; k < REF_MAXLINE && i < n && ref_is_ows(p[i]); k++) i++; /* BWS */
 		if (i == n || p[i] != ';')
 			return 0;
 		i++;
-		while (i < n && ref_is_ows(p[i])) i++;
+		for (k = 0; k < REF_MAXLINE && i < n && ref_is_ows(p[i]); k++) i++;
 		nb = i;
-		while (i < n && ref_is_tchar(p[i])) i++;
+		for (k = 0; k < REF_MAXLINE && i < n && ref_is_tchar(p[i]); k++) i++;
 		ne = i;
 		if (nb == ne)
 			return 0;
 		*has_ext = 1;
-		{
-			size_t save = i;
-			while (i < n && ref_is_ows(p[i])) i++;
-			if (i < n && p[i] == '=') {
-				size_t vb;
-				i++;
-				while (i < n && ref_is_ows(p[i])) i++;
-				vb = i;
-				while (i < n && p[i] != ';' && !ref_is_ows(p[i])) i++;
-				if (!ref_ext_val_ok(p, vb, i))
-					return 0;
-			} else {
-				i = save;
-			}
+		save = i;
+		for (k = 0; k < REF_MAXLINE && i < n && ref_is_ows(p[i]); k++) i++;
+		if (i < n && p[i] == '=') {
+			size_t vb;
+			i++;
+			for (k = 0; k < REF_MAXLINE && i < n && ref_is_ows(p[i]); k++) i++;
+			vb = i;
+			for (k = 0; k < REF_MAXLINE && i < n && p[i] != ';' && !ref_is_ows(p[i]); k++) i++;
+			if (!ref_ext_val_ok(p, vb, i))
+				return 0;
+		} else {
+			i = save;
 		}
 	}
+	if (i < n)
+		return 0;
 	*size = v;
 	return over ? 2 : 1;
 }
+
 /* ---- chunked body (RFC 9112 7.1) ------------------------------------------------------
  * chunked-body = *chunk last-chunk trailer-section CRLF
  * chunk        = chunk-size [ chunk-ext ] CRLF chunk-data CRLF
@@ -561,7 +562,8 @@ struct ref_chunked {
 	int saw_ext;             /* some chunk-size line carried an extension */
 	size_t consumed;         /* at DONE: bytes up to and including the last-chunk line */
 	size_t body_len;         /* octets of all complete chunks */
-	ref_u8 body[REF_MAXSTREAM];
+	size_t nchunks;          /* complete non-empty chunks; chunk i is stream[c_off[i], c_off[i]+c_len[i]) */
+	size_t c_off[REF_MAXCHUNKS], c_len[REF_MAXCHUNKS];
 };
 static int ref_chunk_size_line_lenient(const ref_u8 *p, size_t n, unsigned long long *size, int *has_ext)
 {
@@ -591,7 +593,7 @@ static int ref_chunk_size_line_lenient(const ref_u8 *p, size_t n, unsigned long 
 static void ref_chunked_decode(const ref_u8 *p, size_t n, int lenient, struct ref_chunked *c)
 {
 	size_t pos = 0, ci, i;
-	c->status = REF_C_MORE; c->reject_reason = REF_CR_NONE; c->saw_ext = 0; c->consumed = 0; c->body_len = 0;
+	c->status = REF_C_MORE; c->reject_reason = REF_CR_NONE; c->saw_ext = 0; c->consumed = 0; c->body_len = 0; c->nchunks = 0;
 	for (ci = 0; ci < REF_MAXCHUNKS; ci++) {
 		size_t lf = n, le;
 		unsigned long long size;
@@ -614,7 +616,7 @@ static void ref_chunked_decode(const ref_u8 *p, size_t n, int lenient, struct re
 		if (size > n - pos)
 			return; /* MORE: chunk-data incomplete */
 		/* chunk-data complete (delivered as soon as it is complete); CRLF must follow */
-		for (i = 0; i < REF_MAXSTREAM && i < size; i++) c->body[c->body_len + i] = p[pos + i];
+		c->c_off[c->nchunks] = pos; c->c_len[c->nchunks] = (size_t)size; c->nchunks++;
 		c->body_len += size;
 		if (pos + size == n)
 			return; /* MORE: terminator not there yet */
